@@ -346,3 +346,16 @@ CLAIMS["C22"] = (
     "stored",
     "6/C22", TRUSTED + "; coefficients are compared in the value domain at one assignment of the coefficient symbols",
     "TLA+ monomial-bag arithmetic + TLC trace validation")
+
+CLAIMS["C26"] = (
+    "model_checking",
+    "TLC enumerates matrix-expression trees of depth 0-2 over dense, diagonal, identity and zero leaves of shapes 2x2, "
+    "2x3, 3x2, 3x3 (rational, Gaussian and symbolic entries) combined by matrix add, multiply (with scalar factors), "
+    "Hadamard product, transpose and conjugate, plus mismatched shapes and matrix symbols with symbolic dimensions; "
+    "TLC evaluates the recipe and the returned expression to concrete matrices (operator MVal) and demands equal "
+    "values, that every definite answer of is_zero / is_diagonal / is_symmetric / is_lower / is_upper / is_real / "
+    "is_square / is_toeplitz agrees with the three-valued truth on the concrete matrix, that size() gives its shape "
+    "and trace() its trace",
+    "6/C26", TRUSTED + "; expressions containing matrix symbols are only required not to fail an assertion (their "
+    "answers cannot be contradicted by a concrete matrix)",
+    "TLA+ dense semantics of matrix expressions + three-valued predicate truth + TLC trace validation")
